@@ -295,4 +295,96 @@ theorem functions_present :
     GenAgg.functions = ["vsum", "vmean", "vmean_var", "vvar", "vstd", "vskew", "vmax", "vmin", "count_none",
       "vcov", "vcorr_pearson", "count_valid", "vfirst", "vlast", "vcount_value", "vargmax", "vargmin", "vkurt"] := rfl
 
+/-! ## the plain trait `AggBasic` (null-free items), regenerated -/
+
+theorem plain_count_value_eq (sqrt : Rat → Rat) (xs : List Rat) (v : Rat) :
+    GenAgg.plain.count_value.run sqrt xs v = C11.countValueP v xs := by
+  simp only [GenAgg.plain.count_value.run, C11.countValueP]
+  congr 1
+  funext acc x
+  by_cases h : x = v <;> simp [h]
+
+theorem plain_first_eq (sqrt : Rat → Rat) (xs : List Rat) : GenAgg.plain.first.run sqrt xs = C11.firstP xs := rfl
+theorem plain_last_eq (sqrt : Rat → Rat) (xs : List Rat) : GenAgg.plain.last.run sqrt xs = C11.lastP xs := rfl
+
+theorem fold_nsum (F : Nat × Rat → Rat → Nat × Rat) (hF : ∀ n a x, F (n, a) x = (n + 1, a + x))
+    (xs : List Rat) (n : Nat) (a : Rat) :
+    List.foldl F (n, a) xs = List.foldl (fun (p : Nat × Rat) x => (p.1 + 1, p.2 + x)) (n, a) xs := by
+  induction xs generalizing n a with
+  | nil => rfl
+  | cons x xs ih => rw [List.foldl_cons, List.foldl_cons, hF]; exact ih _ _
+
+theorem plain_n_sum_agree (sqrt : Rat → Rat) (xs : List Rat) :
+    (GenAgg.plain.n_sum.run sqrt xs).1 = (C11.nSumP xs).1 ∧
+    Agree sqrt (GenAgg.plain.n_sum.run sqrt xs).2 (C11.nSumP xs).2 := by
+  unfold GenAgg.plain.n_sum.run C11.nSumP
+  simp only []
+  rw [fold_nsum _ (fun n a x => rfl) xs 0 0]
+  generalize List.foldl (fun (p : Nat × Rat) x => (p.1 + 1, p.2 + x)) (0, 0) xs = p
+  by_cases h : p.1 ≥ 1 <;> simp [h, Agree]
+
+theorem plain_sum_agree (sqrt : Rat → Rat) (xs : List Rat) :
+    Agree sqrt (GenAgg.plain.sum.run sqrt xs) (C11.sumP xs) := (plain_n_sum_agree sqrt xs).2
+
+theorem plain_mean_agree (sqrt : Rat → Rat) (xs : List Rat) :
+    Agree sqrt (GenAgg.plain.mean.run sqrt xs) (C11.meanP xs) := by
+  unfold GenAgg.plain.mean.run C11.meanP GenAgg.plain.n_sum.run C11.nSumP
+  simp only []
+  rw [fold_nsum _ (fun n a x => rfl) xs 0 0]
+  generalize List.foldl (fun (p : Nat × Rat) x => (p.1 + 1, p.2 + x)) (0, 0) xs = p
+  by_cases h : p.1 ≥ 1 <;> simp [h, Agree]
+
+theorem maxWith_eq (a b : Rat) : Gen.maxWith a b = C11.maxWith a b := rfl
+theorem minWith_eq (a b : Rat) : Gen.minWith a b = C11.minWith a b := rfl
+
+theorem plain_max_eq (sqrt : Rat → Rat) (xs : List Rat) : GenAgg.plain.max.run sqrt xs = C11.maxP xs := by
+  unfold GenAgg.plain.max.run C11.maxP
+  congr 1
+
+theorem plain_min_eq (sqrt : Rat → Rat) (xs : List Rat) : GenAgg.plain.min.run sqrt xs = C11.minP xs := by
+  unfold GenAgg.plain.min.run C11.minP
+  congr 1
+
+theorem fold_argP (step : ArgSt → Rat → ArgSt)
+    (F : Option Rat × Option Nat × Nat → Rat → Option Rat × Option Nat × Nat)
+    (hF : ∀ a b c v, F (a, b, c) v = ((step ⟨a, b, c⟩ v).best, (step ⟨a, b, c⟩ v).idx, (step ⟨a, b, c⟩ v).cur))
+    (xs : List Rat) (s : ArgSt) :
+    List.foldl F (s.best, s.idx, s.cur) xs =
+      ((xs.foldl step s).best, (xs.foldl step s).idx, (xs.foldl step s).cur) := by
+  induction xs generalizing s with
+  | nil => rfl
+  | cons v xs ih =>
+    rw [List.foldl_cons, List.foldl_cons, hF]
+    exact ih (step s v)
+
+theorem plain_argmax_eq (sqrt : Rat → Rat) (xs : List Rat) :
+    GenAgg.plain.argmax.run sqrt xs = C11.argmaxP xs := by
+  unfold GenAgg.plain.argmax.run C11.argmaxP
+  simp only []
+  rw [fold_argP argmaxStepP _ (by
+    intro a b c x
+    cases a with
+    | none => simp [argmaxStepP]
+    | some m =>
+      by_cases h : x > m
+      · simp [argmaxStepP, h, (cmpRat_gt x m).mpr h]
+      · have : ¬ Gen.cmpRat x m = .gt := fun hc => h ((cmpRat_gt x m).mp hc)
+        simp [argmaxStepP, h, this]) xs ⟨none, none, 0⟩]
+
+theorem plain_argmin_eq (sqrt : Rat → Rat) (xs : List Rat) :
+    GenAgg.plain.argmin.run sqrt xs = C11.argminP xs := by
+  unfold GenAgg.plain.argmin.run C11.argminP
+  simp only []
+  rw [fold_argP argminStepP _ (by
+    intro a b c x
+    cases a with
+    | none => simp [argminStepP]
+    | some m =>
+      by_cases h : x < m
+      · simp [argminStepP, h, (cmpRat_lt x m).mpr h]
+      · have : ¬ Gen.cmpRat x m = .lt := fun hc => h ((cmpRat_lt x m).mp hc)
+        simp [argminStepP, h, this]) xs ⟨none, none, 0⟩]
+
+theorem plain_functions_present :
+    GenAgg.plain.functions = ["count_value", "first", "last", "n_sum", "sum", "mean", "max", "min", "argmax", "argmin"] := rfl
 end Tv.C11Gen
